@@ -126,6 +126,16 @@ def obj_expr(ctx, e):
         if isinstance(p, tuple) and p[0] == "obj":
             return p[1], lambda f: proj(ctx, p[1], f, e.id)
         raise Decline("object name " + e.id)
+    if isinstance(e, ast.Subscript) and isinstance(e.value, ast.Name) and isinstance(ctx.params.get(e.value.id), tuple) \
+            and ctx.params[e.value.id][0] == "objlist":
+        rec = ctx.params[e.value.id][1]
+        ix = e.slice.value if isinstance(e.slice, ast.Index) else e.slice
+        i = to_z(ctx, expr(ctx, ix))
+
+        def get(f, lst=e.value.id, rec=rec, i=i):
+            pr = proj(ctx, rec, f, "o__")
+            return bind_all(ctx, [i], lambda n: T("(bind (name_at %s %s) (fun o__ => OK %s))" % (lst, n[0], pr.text), pr.ty, False))
+        return rec, get
     if isinstance(e, ast.IfExp):
         c = to_bool(ctx, expr(ctx, e.test))
         ra, fa = obj_expr(ctx, e.body)
@@ -281,6 +291,10 @@ def expr(ctx, e):
         if e.func.id == "list":
             return x
         return bind_all(ctx, [x], lambda n: T("(sumZ %s)" % n[0], "Z"))
+    if (isinstance(e, ast.Call) and isinstance(e.func, ast.Name) and e.func.id == "len" and len(e.args) == 1
+            and isinstance(e.args[0], ast.Name) and isinstance(ctx.params.get(e.args[0].id), tuple)
+            and ctx.params[e.args[0].id][0] == "objlist"):
+        return T("(zlen %s)" % e.args[0].id, "Z")
     if isinstance(e, ast.List) and not e.elts:
         return T("[]", "zlist")
     # mapping.<dict field>.get(key, [])
@@ -332,8 +346,30 @@ def assign(ctx, target, value_t):
 
 def stmts(ctx, body):
     """statement list -> Gallina term of type res st with the current state bound to s"""
-    parts = [stmt(ctx, s) for s in body if not isinstance(s, (ast.Nonlocal, ast.Pass))
-             and not (isinstance(s, ast.Expr) and isinstance(s.value, ast.Constant))]
+    body = [s for s in body if not isinstance(s, (ast.Nonlocal, ast.Pass))
+            and not (isinstance(s, ast.Expr) and isinstance(s.value, ast.Constant))]
+    # x = items[i] : an immutable binding of a record of a parameter list for the rest of the block
+    for i, s in enumerate(body):
+        if (isinstance(s, ast.Assign) and len(s.targets) == 1 and isinstance(s.targets[0], ast.Name)
+                and isinstance(s.value, ast.Subscript) and isinstance(s.value.value, ast.Name)
+                and isinstance(ctx.params.get(s.value.value.id), tuple) and ctx.params[s.value.value.id][0] == "objlist"):
+            name = s.targets[0].id
+            if name in ctx.params or name in ctx.state:
+                raise Decline("rebinding of " + name)
+            for n in ast.walk(ast.Module(body=body[i + 1:], type_ignores=[])):
+                if isinstance(n, ast.Name) and isinstance(n.ctx, ast.Store) and n.id == name:
+                    raise Decline("the bound record is reassigned")
+            ix = s.value.slice.value if isinstance(s.value.slice, ast.Index) else s.value.slice
+            idx = to_z(ctx, expr(ctx, ix))
+            first = stmts(ctx, body[:i]) if i else None
+            ctx.params[name] = ("obj", ctx.params[s.value.value.id][1])
+            rest = stmts(ctx, body[i + 1:])
+            del ctx.params[name]
+            inner = bind_all(ctx, [idx], lambda n: T("(bind (name_at %s %s) (fun %s => %s))" % (s.value.value.id, n[0], name, rest), "st", False))
+            if first is None:
+                return inner.text
+            return "(bind %s (fun s => %s))" % (first, inner.text)
+    parts = [stmt(ctx, s) for s in body]
     parts = [p for p in parts if p is not None]
     if not parts:
         return "(OK s)"
@@ -344,6 +380,28 @@ def stmts(ctx, body):
 
 
 def stmt(ctx, s):
+    # d[k] = v on an ordered dict local
+    if (isinstance(s, ast.Assign) and len(s.targets) == 1 and isinstance(s.targets[0], ast.Subscript)
+            and isinstance(s.targets[0].value, ast.Name) and ctx.state.get(s.targets[0].value.id) == "odictOptZ"):
+        t = s.targets[0]
+        nm = t.value.id
+        ix = t.slice.value if isinstance(t.slice, ast.Index) else t.slice
+        k = to_z(ctx, expr(ctx, ix))
+        v = to_optz(ctx, expr(ctx, s.value))
+        r = bind_all(ctx, [k, v], lambda n: T("(set_v_%s s (oset (v_%s s) %s %s))" % (nm, nm, n[0], n[1]), "st"))
+        return lifted(r)
+    # d[k].append(x) on a defaultdict(list) local
+    if (isinstance(s, ast.Expr) and isinstance(s.value, ast.Call) and isinstance(s.value.func, ast.Attribute)
+            and s.value.func.attr == "append" and isinstance(s.value.func.value, ast.Subscript)
+            and isinstance(s.value.func.value.value, ast.Name) and ctx.state.get(s.value.func.value.value.id) == "odictZlist"
+            and len(s.value.args) == 1):
+        t = s.value.func.value
+        nm = t.value.id
+        ix = t.slice.value if isinstance(t.slice, ast.Index) else t.slice
+        k = to_z(ctx, expr(ctx, ix))
+        v = to_z(ctx, expr(ctx, s.value.args[0]))
+        r = bind_all(ctx, [k, v], lambda n: T("(set_v_%s s (adds_append (v_%s s) %s %s))" % (nm, nm, n[0], n[1]), "st"))
+        return lifted(r)
     if isinstance(s, ast.Assign):
         if len(s.targets) != 1:
             raise Decline("multiple assignment targets")
@@ -362,7 +420,22 @@ def stmt(ctx, s):
         if s.orelse:
             raise Decline("while/else")
         c = to_bool(ctx, expr(ctx, s.test))
-        return "(while_ fuel (fun s => %s) (fun s => %s) s)" % (lifted(c), stmts(ctx, s.body))
+        wbody = stmts(ctx, s.body)
+        if getattr(ctx, "named_loops", None) is not None and getattr(ctx, "loops_take_fuel", False):
+            k = len(ctx.named_loops) + 1
+            outer = [(n, t.ty) for n, t in ctx.loopvars.items()]
+            fparams = [(n, ty) for n, ty in ctx.params.items() if (isinstance(ty, str) and ty in ("linemap", "bytes", "Z", "bool", "optZ"))
+                       or (isinstance(ty, tuple) and ty[0] in ("objlist", "obj"))]
+            def coqty(ty):
+                if isinstance(ty, tuple):
+                    return "list (option Z * Z)" if ty[0] == "objlist" else "(option Z * Z)"
+                return {"linemap": "linemap", "bytes": "list Z"}.get(ty, COQ_TY.get(ty, ty))
+            sig = " ".join("(%s : %s)" % (n, coqty(ty)) for n, ty in fparams + outer)
+            args = " ".join(n for n, _ in fparams + outer)
+            ctx.named_loops.append("Definition while%d_cond (fuel : nat) %s (s : st) : res bool :=\n  %s.\n"
+                                   "Definition while%d_body (fuel : nat) %s (s : st) : res st :=\n  %s." % (k, sig, lifted(c), k, sig, wbody))
+            return "(while_ fuel (while%d_cond fuel %s) (while%d_body fuel %s) s)" % (k, args, k, args)
+        return "(while_ fuel (fun s => %s) (fun s => %s) s)" % (lifted(c), wbody)
     if (isinstance(s, ast.Expr) and isinstance(s.value, ast.Call) and isinstance(s.value.func, ast.Attribute)
             and s.value.func.attr == "insert"):
         return insert_front(ctx, s)
@@ -416,7 +489,7 @@ def for_loop(ctx, s):
     if s.orelse:
         raise Decline("for/else")
     it = s.iter
-    binder, new = None, {}
+    binder, new, objparam = None, {}, None
     if (isinstance(it, ast.Call) and isinstance(it.func, ast.Attribute) and it.func.attr == "items" and not it.args
             and dict_field(ctx, it.func.value) and dict_field(ctx, it.func.value)[1] == "odictOptZ"):
         lst = dict_field(ctx, it.func.value)[0]
@@ -425,6 +498,19 @@ def for_loop(ctx, s):
         k, v = s.target.elts[0].id, s.target.elts[1].id
         binder = "'(%s, %s)" % (k, v)
         new = {k: T(k, "Z"), v: T(v, "optZ")}
+    elif (isinstance(it, ast.Name) and isinstance(ctx.params.get(it.id), tuple) and ctx.params[it.id][0] == "objlist"
+          and isinstance(s.target, ast.Name)):
+        lst = it.id
+        binder = s.target.id
+        objparam = (s.target.id, ("obj", ctx.params[it.id][1]))
+    elif (isinstance(it, ast.Call) and isinstance(it.func, ast.Name) and it.func.id == "range" and len(it.args) == 3
+          and isinstance(it.args[2], ast.Constant) and it.args[2].value == 2 and isinstance(s.target, ast.Name)):
+        a, b = to_z(ctx, expr(ctx, it.args[0])), to_z(ctx, expr(ctx, it.args[1]))
+        if not (a.pure and b.pure):
+            raise Decline("range bounds that can raise")
+        lst = "(range2 %s %s)" % (a.text, b.text)
+        binder = s.target.id
+        new = {s.target.id: T(s.target.id, "Z")}
     elif isinstance(it, ast.Name) and ctx.state.get(it.id) == "zlist" and isinstance(s.target, ast.Name):
         lst = "(v_%s s)" % it.id
         for n in ast.walk(s):
@@ -439,22 +525,36 @@ def for_loop(ctx, s):
             raise Decline("loop variable shadows a name")
     saved = dict(ctx.loopvars)
     ctx.loopvars.update(new)
+    if objparam:
+        if objparam[0] in ctx.params:
+            raise Decline("loop variable shadows a name")
+        ctx.params[objparam[0]] = objparam[1]
     record = [n for n in new if ctx.state.get(n) == "uZ"]
     body = stmts(ctx, s.body)
     for n in reversed(record):
         body = "(bind (OK (set_v_%s s (Some %s))) (fun s => %s))" % (n, n, body)
     ctx.loopvars = saved
+    if objparam:
+        del ctx.params[objparam[0]]
     if getattr(ctx, "named_loops", None) is not None:
         # the body becomes a definition of its own (so that lemmas can be stated about it): parameters are the
         # function's variable parameters and the variables of the enclosing loops
         k = len(ctx.named_loops) + 1
         name = "loop%d_body" % k
         outer = [(n, t.ty) for n, t in saved.items()]
-        fparams = [(n, ty) for n, ty in ctx.params.items() if isinstance(ty, str) and ty in ("linemap", "bytes", "Z", "bool", "optZ")]
-        sig = " ".join("(%s : %s)" % (n, {"linemap": "linemap", "bytes": "list Z"}.get(ty, COQ_TY.get(ty, ty))) for n, ty in fparams + outer)
+        fparams = [(n, ty) for n, ty in ctx.params.items() if (isinstance(ty, str) and ty in ("linemap", "bytes", "Z", "bool", "optZ"))
+                   or (isinstance(ty, tuple) and ty[0] in ("objlist", "obj"))]
+        def coqty(ty):
+            if isinstance(ty, tuple):
+                return "list (option Z * Z)" if ty[0] == "objlist" else "(option Z * Z)"
+            return {"linemap": "linemap", "bytes": "list Z"}.get(ty, COQ_TY.get(ty, ty))
+        sig = " ".join("(%s : %s)" % (n, coqty(ty)) for n, ty in fparams + outer)
         args = " ".join(n for n, _ in fparams + outer)
-        bty = "(kv : Z * option Z)" if binder.startswith("'") else "(%s : Z)" % binder
+        bty = "(kv : Z * option Z)" if binder.startswith("'") else ("(%s : option Z * Z)" % binder if objparam else "(%s : Z)" % binder)
         pre = "let %s := kv in " % binder if binder.startswith("'") else ""
+        if getattr(ctx, "loops_take_fuel", False):
+            ctx.named_loops.append("Definition %s (fuel : nat) %s (s : st) %s : res st :=\n  %s%s." % (name, sig, bty, pre, body))
+            return "(foldM (%s fuel %s) %s s)" % (name, args, lst)
         ctx.named_loops.append("Definition %s %s (s : st) %s : res st :=\n  %s%s." % (name, sig, bty, pre, body))
         return "(foldM (%s %s) %s s)" % (name, args, lst)
     return "(foldM (fun s %s => %s) %s s)" % (binder, body, lst)
@@ -468,8 +568,9 @@ def _as_load(t):
     raise Decline("augmented assignment target")
 
 
-COQ_TY = {"Z": "Z", "optZ": "option Z", "bool": "bool", "zlist": "list Z", "uZ": "option Z"}
-DEFAULT = {"Z": "0", "optZ": "None", "bool": "false", "zlist": "[]", "uZ": "None"}
+COQ_TY = {"Z": "Z", "optZ": "option Z", "bool": "bool", "zlist": "list Z", "uZ": "option Z",
+          "odictOptZ": "odict (option Z)", "odictZlist": "odict (list Z)"}
+DEFAULT = {"Z": "0", "optZ": "None", "bool": "false", "zlist": "[]", "uZ": "None", "odictOptZ": "[]", "odictZlist": "[]"}
 
 
 def record_decl(fields):
@@ -745,6 +846,241 @@ def translate_mapping_to_items(tree):
 
 
 # ---------------------------------------------------------------------------------------------------------
+# _blocks.bytes_to_blocks: the body of the first loop after the call of to_arg (size override of jumps, the line
+# entries popped out of the mapping for the instruction and for its EXTENDED_ARG prefixes)
+
+def translate_decode_step(tree):
+    f = find_def(tree.body, "bytes_to_blocks")
+    loops = [s for s in f.body if isinstance(s, ast.For) and ast.dump(s.iter) == _load("_parse_bytes(b)")]
+    if len(loops) != 1:
+        raise Decline("the decoding loop of bytes_to_blocks")
+    loop = loops[0]
+    want_t = ast.dump(ast.parse("for opcode, arg, n_args, offset, next_offset in x: pass").body[0].target)
+    if ast.dump(loop.target) != want_t or loop.orelse:
+        raise Decline("header of the decoding loop")
+    body = [s for s in loop.body if not (isinstance(s, ast.Expr) and isinstance(s.value, ast.Constant))]
+    if len(body) != 5:
+        raise Decline("statements of the decoding loop: %d" % len(body))
+    s_arg, s_if, s_ins, s_app, s_for = body
+    if not (isinstance(s_arg, ast.Assign) and isinstance(s_arg.targets[0], ast.Name) and s_arg.targets[0].id == "processed_arg"
+            and isinstance(s_arg.value, ast.Call) and isinstance(s_arg.value.func, ast.Name) and s_arg.value.func.id == "to_arg"):
+        raise Decline("processed_arg = to_arg(...)")
+    want_args = ["opcode", "arg", "next_offset", "found_names", "found_varnames", "freevars", "found_cellvars", "found_constants"]
+    if [ast.dump(a) for a in s_arg.value.args] != [_load(n) for n in want_args] or s_arg.value.keywords:
+        raise Decline("arguments of to_arg")
+    # instruction = Instruction(name=dis.opname[opcode], arg=processed_arg, _n_args_override=n_args_override,
+    #                           line_number=<pop>, _line_offsets_override=tuple(<pop with default>))
+    want_ins = ("instruction = Instruction(name=dis.opname[opcode], arg=processed_arg, _n_args_override=n_args_override, "
+                "line_number=line_mapping.offset_to_line.pop(offset), "
+                "_line_offsets_override=tuple(line_mapping.offset_to_additional_line_offsets.pop(offset, [])))")
+    if ast.dump(s_ins) != ast.dump(ast.parse(want_ins).body[0]):
+        raise Decline("construction of the instruction")
+    if ast.dump(s_app) != ast.dump(ast.parse("offsets_and_instruction.append((offset, instruction))").body[0]):
+        raise Decline("append of the instruction")
+    want_for = ("for i in range(offset + 2, next_offset, 2):\n    line_mapping.offset_to_line.pop(i, None)\n"
+                "    line_mapping.offset_to_additional_line_offsets.pop(i, None)")
+    if ast.dump(s_for) != ast.dump(ast.parse(want_for).body[0]):
+        raise Decline("removal of the entries of the prefixes")
+    # the if statement is translated by the fragment: n_args_override, targets
+    state = {"n_args_override": "optZ", "targets_set": "zlist"}
+    params = {"is_jump": "bool", "jump_target": "Z", "n_args": "Z", "a": "Z", "offset": "Z", "next_offset": "Z"}
+    ctx = Ctx(state, params, {}, RECORDS, {})
+    ctx.reads = {_load("isinstance(processed_arg, Jump)"): T("is_jump", "bool"), _load("processed_arg.target"): T("jump_target", "Z"),
+                 _load("arg"): T("a", "Z")}
+    ctx.calls = {"_instrsize": "PCD.Gen.Src.instrsize"}
+    # targets_set.add(x)
+    class AddToAppend(ast.NodeTransformer):
+        def visit_Expr(self, node):
+            c = node.value
+            if (isinstance(c, ast.Call) and isinstance(c.func, ast.Attribute) and c.func.attr == "add" and isinstance(c.func.value, ast.Name)
+                    and c.func.value.id == "targets_set" and len(c.args) == 1):
+                return ast.copy_location(ast.Expr(value=ast.Call(func=ast.Attribute(value=ast.Name(id="targets_set", ctx=ast.Load()), attr="insert", ctx=ast.Load()),
+                                                                 args=[ast.Constant(value=0), c.args[0]], keywords=[])), node)
+            return node
+    s_if2 = AddToAppend().visit(s_if)
+    ast.fix_missing_locations(s_if2)
+    for n in ast.walk(s_if2):
+        if isinstance(n, ast.Name) and isinstance(n.ctx, ast.Store) and n.id not in state:
+            raise Decline("local of the decoding loop: " + n.id)
+    text = stmts(ctx, [s_if2])
+    fields = [("v_" + a, COQ_TY[t], DEFAULT[t]) for a, t in state.items()]
+    return ("Module DecodeStep.\n%s\n"
+            "Definition size_and_targets (is_jump : bool) (jump_target n_args a offset next_offset : Z) (s : st) : res st :=\n  %s.\n"
+            "End DecodeStep.\n" % (record_decl(fields), text))
+
+
+# ---------------------------------------------------------------------------------------------------------
+# _blocks.bytes_to_blocks: the second loop - a new block at every instruction whose offset is a target, jump operands
+# rewritten from byte offsets to block indices
+
+def translate_split_blocks(tree):
+    f = find_def(tree.body, "bytes_to_blocks")
+    body = list(f.body)
+    idx = [i for i, s in enumerate(body) if isinstance(s, ast.For) and ast.dump(s.iter) == _load("offsets_and_instruction")]
+    if len(idx) != 1:
+        raise Decline("the block-building loop")
+    loop = body[idx[0]]
+    if ast.dump(loop.target) != ast.dump(ast.parse("for offset, instruction in x: pass").body[0].target) or loop.orelse:
+        raise Decline("header of the block-building loop")
+    # what precedes the loop, back to the end of the decoding loop: targets = <expr>; del targets_set; declarations; blocks = []
+    pre = []
+    j = idx[0] - 1
+    while j >= 0 and not isinstance(body[j], ast.For):
+        pre.insert(0, body[j])
+        j -= 1
+    targets_expr = None
+    blocks_init = False
+    for st in pre:
+        if isinstance(st, ast.Assign) and len(st.targets) == 1 and isinstance(st.targets[0], ast.Name) and st.targets[0].id == "targets":
+            targets_expr = st.value
+        elif isinstance(st, ast.Delete) and ast.dump(st) == ast.dump(ast.parse("del targets_set").body[0]):
+            pass
+        elif isinstance(st, ast.AnnAssign) and isinstance(st.target, ast.Name) and st.target.id == "block" and st.value is None:
+            pass
+        elif (isinstance(st, (ast.AnnAssign, ast.Assign)) and isinstance(st.value, ast.List) and not st.value.elts
+              and (st.target if isinstance(st, ast.AnnAssign) else st.targets[0]).id == "blocks"):
+            blocks_init = True
+        else:
+            raise Decline("statement before the block-building loop: " + type(st).__name__)
+    if targets_expr is None or not blocks_init:
+        raise Decline("targets / blocks initialisation")
+    # targets = sorted(targets_set)   (variation: a list concatenated in front)
+    def tx(e):
+        if ast.dump(e) == _load("sorted(targets_set)"):
+            return "(sorted_set targets_set)"
+        if isinstance(e, ast.BinOp) and isinstance(e.op, ast.Add) and isinstance(e.left, ast.List) \
+                and all(isinstance(x, ast.Constant) and isinstance(x.value, int) for x in e.left.elts):
+            return "([%s] ++ %s)" % ("; ".join("(%d)" % x.value for x in e.left.elts), tx(e.right))
+        if isinstance(e, ast.List) and e.elts:
+            parts = []
+            for x in e.elts:
+                if isinstance(x, ast.Constant) and isinstance(x.value, int) and not isinstance(x.value, bool):
+                    parts.append("[(%d)]" % x.value)
+                elif isinstance(x, ast.Starred):
+                    parts.append(tx(x.value))
+                else:
+                    raise Decline("targets expression")
+            return "(" + " ++ ".join(parts) + ")"
+        raise Decline("targets expression")
+    targets_t = tx(targets_expr)
+    lb = [s for s in loop.body if not (isinstance(s, ast.Expr) and isinstance(s.value, ast.Constant))]
+    if len(lb) != 3:
+        raise Decline("statements of the block-building loop")
+    s_new, s_jump, s_app = lb
+    want_new = "if offset in targets:\n    block = []\n    blocks.append(block)"
+    want_new_neg = None
+    if ast.dump(s_new) == ast.dump(ast.parse(want_new).body[0]):
+        starts = "zmem offset targets"
+    else:
+        raise Decline("start of a new block")
+    want_jump = ("if isinstance(instruction.arg, Jump):\n    instruction = replace(instruction, arg=replace(instruction.arg, "
+                 "target=targets.index(instruction.arg.target)))")
+    if ast.dump(s_jump) != ast.dump(ast.parse(want_jump).body[0]):
+        raise Decline("rewriting of the jump operand")
+    if ast.dump(s_app) != ast.dump(ast.parse("block.append(instruction)").body[0]):
+        raise Decline("append to the current block")
+    return ("Module SplitBlocks.\nSection S.\n  Context {C : Type}.\n"
+            "  Definition targets_of (targets_set : list Z) : list Z := %s.\n"
+            "  (* blocks finished so far, and the block `block` is bound to (None before the first one) *)\n"
+            "  Definition step (targets : list Z) (st : list (list (instr_ C)) * option (list (instr_ C))) (oi : Z * instr_ C)\n"
+            "    : res (list (list (instr_ C)) * option (list (instr_ C))) :=\n"
+            "    let '(offset, instruction) := oi in\n"
+            "    let st1 := if %s then (match snd st with Some b => fst st ++ [b] | None => fst st end, Some []) else st in\n"
+            "    bind (match i_arg instruction with\n"
+            "          | AJump t rel => match index_of Z.eqb t targets with\n"
+            "                           | Some k => OK (mkInstr (i_name instruction) (AJump k rel) (i_nargs instruction) (i_line instruction) (i_lineoffs instruction))\n"
+            "                           | None => Err ValueError\n                           end\n"
+            "          | _ => OK instruction\n          end) (fun instruction' =>\n"
+            "    match snd st1 with\n    | Some b => OK (fst st1, Some (b ++ [instruction']))\n    | None => Err NameError\n    end).\n"
+            "  Definition run (targets_set : list Z) (ois : list (Z * instr_ C)) : res (list (list (instr_ C))) :=\n"
+            "    bind (foldM (step (targets_of targets_set)) ois ([], None))\n"
+            "         (fun st => OK (match snd st with Some b => fst st ++ [b] | None => fst st end)).\n"
+            "End S.\nEnd SplitBlocks.\n" % (targets_t, starts))
+
+
+# ---------------------------------------------------------------------------------------------------------
+# items_to_mapping: both branches (co_linetable ranges, co_lnotab walk over the bytecode offsets)
+
+I2M_TYPES = {"offset_to_line": "odictOptZ", "offset_to_additional_line_offsets": "odictZlist", "current_item_offset": "Z",
+             "last_bytecode_offset": "Z", "current_line": "Z", "bytecode_offset": "Z", "line_offset": "optZ"}
+
+
+def translate_items_to_mapping(tree):
+    f = find_def(tree.body, "items_to_mapping")
+    if [a.arg for a in f.args.args] != ["items", "max_offset", "is_linetable"]:
+        raise Decline("signature of items_to_mapping")
+    body = [s for s in f.body if not (isinstance(s, ast.Expr) and isinstance(s.value, ast.Constant))]
+    inits = {}
+    i = 0
+    while i < len(body) and isinstance(body[i], (ast.Assign, ast.AnnAssign)):
+        st = body[i]
+        tg = st.target if isinstance(st, ast.AnnAssign) else st.targets[0]
+        if not isinstance(tg, ast.Name) or tg.id not in I2M_TYPES:
+            raise Decline("initialisation in items_to_mapping")
+        v = st.value
+        ty = I2M_TYPES[tg.id]
+        if ty == "Z" and isinstance(v, ast.Constant) and isinstance(v.value, int) and not isinstance(v.value, bool):
+            inits[tg.id] = "(%d)" % v.value
+        elif ty == "odictOptZ" and isinstance(v, ast.Dict) and not v.keys:
+            inits[tg.id] = "[]"
+        elif ty == "odictZlist" and ast.dump(v) == ast.dump(ast.parse("collections.defaultdict(list)", mode="eval").body):
+            inits[tg.id] = "[]"
+        else:
+            raise Decline("initial value of " + tg.id)
+        i += 1
+    rest = body[i:]
+    if not (len(rest) == 3 and isinstance(rest[0], ast.If) and isinstance(rest[0].test, ast.Name) and rest[0].test.id == "is_linetable"
+            and not rest[0].orelse and isinstance(rest[1], ast.While) and isinstance(rest[2], ast.Return)):
+        raise Decline("shape of items_to_mapping")
+    lt_body = list(rest[0].body)
+    if not (len(lt_body) == 2 and isinstance(lt_body[0], ast.For) and isinstance(lt_body[1], ast.Return)
+            and ast.dump(lt_body[1].value) == ast.dump(ast.parse("LineMapping(offset_to_line, {})", mode="eval").body)):
+        raise Decline("co_linetable branch of items_to_mapping")
+    want_ret = ast.dump(ast.parse("LineMapping(offset_to_line=offset_to_line, offset_to_additional_line_offsets=dict(offset_to_additional_line_offsets))", mode="eval").body)
+    if ast.dump(rest[2].value) != want_ret:
+        raise Decline("return of items_to_mapping")
+
+    def module(name, stmts_, lt_value, result):
+        assigned = set(inits)
+        for st in stmts_:
+            for n in ast.walk(st):
+                if isinstance(n, ast.Name) and isinstance(n.ctx, ast.Store):
+                    assigned.add(n.id)
+        loopnames = set()
+        for st in stmts_:
+            for n in ast.walk(st):
+                if isinstance(n, ast.For):
+                    loopnames |= {x.id for x in ast.walk(n.target) if isinstance(x, ast.Name)}
+        bound = set()
+        for st in stmts_:
+            for n in ast.walk(st):
+                if (isinstance(n, ast.Assign) and isinstance(n.value, ast.Subscript) and isinstance(n.value.value, ast.Name)
+                        and n.value.value.id == "items" and isinstance(n.targets[0], ast.Name)):
+                    bound.add(n.targets[0].id)
+        state = {}
+        for a in sorted(assigned - loopnames - bound):
+            if a not in I2M_TYPES:
+                raise Decline("undeclared local " + a)
+            state[a] = I2M_TYPES[a]
+        params = {"is_linetable": ("bool", lt_value), "items": ("objlist", "citem"), "max_offset": "Z"}
+        ctx = Ctx(state, params, {}, RECORDS, {})
+        ctx.named_loops = []
+        ctx.loops_take_fuel = True
+        fields = [("v_" + a, COQ_TY[t], inits.get(a, DEFAULT[t])) for a, t in state.items()]
+        text = stmts(ctx, stmts_)
+        defs = "\n".join(ctx.named_loops)
+        return ("Module %s.\n%s\n%s\n"
+                "Definition body (fuel : nat) (items : list (option Z * Z)) (max_offset : Z) (s : st) : res st :=\n  %s.\n"
+                "Definition run (fuel : nat) (items : list (option Z * Z)) (max_offset : Z) : res (odict (option Z) * odict (list Z)) :=\n"
+                "  bind (body fuel items max_offset init) (fun s => OK %s).\nEnd %s.\n"
+                % (name, record_decl(fields), defs, text, result, name))
+
+    a = module("ItemsToMappingLt", [lt_body[0]], "true", "(v_offset_to_line s, [])")
+    b = module("ItemsToMappingLnotab", [rest[1]], "false", "(v_offset_to_line s, v_offset_to_additional_line_offsets s)")
+    return a + b
+
+
+# ---------------------------------------------------------------------------------------------------------
 # _blocks.blocks_to_bytes: the per-instruction bodies of the two passes of the jump relaxation
 
 def _load(text):
@@ -890,10 +1226,13 @@ ITEMS = [("expand_items", "_line_mapping.py", translate_expand_items),
          ("collapse_items", "_line_mapping.py", translate_collapse_items),
          ("parse_bytes", "_blocks.py", translate_parse_bytes),
          ("mapping_to_items", "_line_mapping.py", translate_mapping_to_items),
-         ("relax_step", "_blocks.py", translate_relax_step)]
+         ("relax_step", "_blocks.py", translate_relax_step),
+         ("items_to_mapping", "_line_mapping.py", translate_items_to_mapping),
+         ("decode_step", "_blocks.py", translate_decode_step),
+         ("split_blocks", "_blocks.py", translate_split_blocks)]
 
 HEADER = ("(* generated by harness/translate_lines.py from /repo/code_data/_line_mapping.py on every run; do not edit *)\n"
-          "From PCD Require Import Base.PyBase Base.PyImp Model.LineTable.\nFrom PCD Require Gen.Src.\n\n")
+          "From PCD Require Import Base.PyBase Base.PyImp Base.Cfg Model.Flags Model.Args Model.Data Model.LineTable Model.Blocks.\nFrom PCD Require Gen.Src.\n\n")
 
 
 def generate(repo, outpath, fallback_dir, write_fallback=False):
